@@ -191,14 +191,24 @@ def main():
                 d0, loc0 = bad[0]
             pb = [p for p in r.playback if p[0] != "cover" and p[1] == d0] or \
                  [p for p in r.playback if p[0] != "cover"]
+            if not pb and j.concrete is not None:
+                # inputs fully determined by the harness (the solver's trace carries no free value): replay with those values
+                tn = "kani_concrete_playback_%s_noinput" % j.name
+                pb = [("", d0, tn, "#[test]\nfn %s() {\n    let concrete_vals: Vec<Vec<u8>> = %s;\n    kani::concrete_playback_run(concrete_vals, %s);\n}" % (tn, j.concrete, j.name))]
+            if not pb:
+                # kani-driver sometimes prints the playback test of a cover witness only: those inputs are candidates too
+                # (a candidate counts only if the native run fails)
+                pb = [p for p in r.playback if p[0] == "cover"][:3]
             if not pb:
                 inconclusive.append((j.name, "refuted (%s) but no playback test emitted" % d0))
                 continue
-            _, cdesc, tname, tsrc = pb[0]
             replayed += 1
-            out = core.native_replay(ws.hk, feature, None, tname, tsrc, features=features, genfile=j.genfile)
-            rep = {p: v for p, v in out.items()}
-            reproduced = any(v[0] for v in rep.values())
+            for (_, cdesc, tname, tsrc) in pb[:3]:
+                out = core.native_replay(ws.hk, feature, None, tname, tsrc, features=features, genfile=j.genfile)
+                rep = {p: v for p, v in out.items()}
+                reproduced = any(v[0] for v in rep.values())
+                if reproduced:
+                    break
             rdir = os.path.join(core.VERIF, "replays", prop)
             os.makedirs(rdir, exist_ok=True)
             rpath = os.path.join(rdir, "%s-%s.json" % (j.name, core.sha(tsrc)))
